@@ -65,11 +65,14 @@ def gen_c11_spec(rng: random.Random) -> Dict[str, Any]:
             # saw is part of the arguments every further attempt must get
             snd["task"] = "t_model"
             snd["kwargs"] = {"req": {"name": rng.choice(["a", "b"])}}
+            if rng.random() < 0.5:
+                snd["kwargs"]["req"].update({"at": "2024-05-01T10:00:00", "amount": "12.50", "uid": "12345678-1234-5678-1234-567812345678"})
         sends.append(snd)
         meta[tok] = {"mr_kind": mr_kind, "mr": mr, "ro_kind": ro_kind}
     mws = [{"pre_execute": {"async": rng.random() < 0.5, "lat": rng.choice([0, "y"])}}]
     spec: Dict[str, Any] = {
-        "cfg": {"A": rng.choice([1, 2, None]), "P": rng.choice([0, 1])},
+        # (propagate_exceptions only says whether dependencies see the exception; retries do not depend on it)
+        "cfg": {"A": rng.choice([1, 2, None]), "P": rng.choice([0, 1]), "propagate": rng.random() < 0.75},
         "client_sends": sends, "loopback": True, "msgs": [], "mws": mws,
         "retry": {"default_count": default_count, "default_label": default_label, "no_result_on_retry": nro,
                   "pos": rng.choice([0, 1])},
